@@ -145,21 +145,62 @@ func genPlan(rt *rapid.T, label string) (*rawpeer.SeqPlan, string) {
 			chunks = append(chunks, rapid.IntRange(10, 3000).Draw(rt, label+"_chunk"))
 		}
 	}
+	// Sleeping yields are only drawn when the plan implies few reads; otherwise
+	// the case would be dominated by timer granularity (harness cost, not a signal).
+	sleepy := avgChunk(chunks) >= 1500
 	ny := rapid.IntRange(0, 4).Draw(rt, label+"_nYields")
 	var yields []int
 	for i := 0; i < ny; i++ {
-		// 0 none, 1 Gosched, >1 sleep microseconds (kept tiny: many reads per case)
-		yields = append(yields, rapid.SampledFrom([]int{0, 0, 1, 1, 1, 20, 100}).Draw(rt, label+"_yield"))
-	}
-	minChunk := 0
-	for _, c := range chunks {
-		if c > 0 && (minChunk == 0 || c < minChunk) {
-			minChunk = c
+		// 0 none, 1 Gosched, >1 sleep microseconds
+		if sleepy {
+			yields = append(yields, rapid.SampledFrom([]int{0, 0, 1, 1, 1, 20, 100}).Draw(rt, label+"_yield"))
+		} else {
+			yields = append(yields, rapid.SampledFrom([]int{0, 0, 1}).Draw(rt, label+"_yield"))
 		}
 	}
 	desc := fmt.Sprintf("chunks=%v yields=%v", chunks, yields)
-	_ = minChunk
 	return &rawpeer.SeqPlan{Chunks: chunks, Yields: yields}, desc
+}
+
+// avgChunk is the mean piece size of a cycled size list (<=0 or empty = unlimited,
+// counted as a full segment).
+func avgChunk(chunks []int) int {
+	if len(chunks) == 0 {
+		return 65535
+	}
+	sum := 0
+	for _, c := range chunks {
+		if c <= 0 || c > 65535 {
+			c = 65535
+		}
+		sum += c
+	}
+	return sum / len(chunks)
+}
+
+// volumeFor bounds the bytes moved in a case so that the number of Read/Write
+// calls implied by the fragmentation stays around <= 25k.
+func volumeFor(max int, chunkLists ...[]int) int {
+	v := max
+	for _, cl := range chunkLists {
+		if w := avgChunk(cl) * 25000; w < v {
+			v = w
+		}
+	}
+	if v < 20000 {
+		v = 20000
+	}
+	return v
+}
+
+// noSleep turns sleeping yields of a plan into plain Gosched yields.
+func noSleep(p *rawpeer.SeqPlan) string {
+	for i, y := range p.Yields {
+		if y > 1 {
+			p.Yields[i] = 1
+		}
+	}
+	return fmt.Sprintf("chunks=%v yields=%v", p.Chunks, p.Yields)
 }
 
 func planSplitsHeader(p *rawpeer.SeqPlan) bool {
